@@ -45,10 +45,23 @@ def live_variables():
 
 
 def var_state(v):
+    """binding state of a variable, sensitive to WHICH variables its value refers to (two
+    values that differ only in the identity of an unbound variable are different states)"""
     val = v.get_value()
     if val is v:
         return ('unbound',)
-    return ('bound', impl.observe([val]))
+    return ('bound', raw_ids(val))
+
+
+def raw_ids(t):
+    t = impl.engine.get_value(t)
+    if isinstance(t, impl.Variable):
+        return ('v', id(t))
+    if isinstance(t, impl.Atom):
+        return ('a', t.name())
+    if isinstance(t, impl.Functor):
+        return ('f', t._name, tuple(raw_ids(a) for a in t._args))
+    return ('c', repr(t))
 
 
 def snapshot():
